@@ -789,6 +789,10 @@ def normalize_slice(idx, dim):
             if stop is not None and start is not None and stop < start:
                 stop = start
         elif step < 0:
+            if start < 0:
+                # ``slice.indices`` clips a start below ``-dim`` to -1, which
+                # selects nothing; kept as -1 it would mean the last element
+                return slice(0, 0, None)
             if start >= dim - 1:
                 start = None
             if stop < 0:
